@@ -117,3 +117,29 @@ Proof.
   apply in_map_iff in Hs. destruct Hs as [e [<- He]]. specialize (H e He).
   apply negb_true_iff in H. apply memN_false in H. exact H.
 Qed.
+
+Lemma top_mir_no_dangling_ext_correct : forall ext_fn ext_ty P,
+    mir_no_dangling_ext ext_fn ext_ty P = true <-> MirClosed ext_fn ext_ty P.
+Proof.
+  intros ext_fn ext_ty P. unfold mir_no_dangling_ext. repeat rewrite andb_true_iff. repeat rewrite forallb_forall. split.
+  - intros [[[[H1 H2] H3] H4] H5]. constructor.
+    + intros n Hn. specialize (H1 n Hn). apply orb_true_iff in H1. destruct H1 as [H1|H1]; [|auto].
+      apply orb_true_iff in H1. destruct H1 as [H1|H1]; [left; apply memN_In; exact H1 | auto].
+    + intros s Hs. apply memN_In. apply H2. exact Hs.
+    + intros f Hf. apply memN_In. apply H3. exact Hf.
+    + intros f Hf. specialize (H4 f Hf). apply orb_true_iff in H4. destruct H4 as [H4|H4]; [left; apply memN_In; exact H4 | auto].
+    + intros f Hf. apply memN_In. apply H5. exact Hf.
+  - intros [H1 H2 H3 H4 H5]. repeat split.
+    + intros n Hn. destruct (H1 n Hn) as [H|[H|H]].
+      * apply memN_In in H. rewrite H. reflexivity.
+      * rewrite H, orb_true_r. reflexivity.
+      * rewrite H, orb_true_r. reflexivity.
+    + intros s Hs. apply memN_In. apply H2. exact Hs.
+    + intros f Hf. apply memN_In. apply H3. exact Hf.
+    + intros f Hf. apply orb_true_iff. destruct (H4 f Hf) as [H|H]; [left; apply memN_In; exact H | auto].
+    + intros f Hf. apply memN_In. apply H5. exact Hf.
+Qed.
+
+Lemma top_mir_no_dangling_is_ext : forall P,
+    mir_no_dangling P = mir_no_dangling_ext (fun f => builtin_cls (fn_cls f)) builtin_ty P.
+Proof. reflexivity. Qed.
